@@ -313,6 +313,16 @@ func main() {
 	if _, ok := r.ReplayObject(&rp); ok {
 		verbose = true
 		runProgram(r, rp, !rp.Loose, false)
+		clean, raced := rp, false
+		clean.Calls = append([]Call{}, rp.Calls...)
+		for i := range clean.Calls {
+			if clean.Calls[i].MkdirRace != "" {
+				clean.Calls[i].MkdirRace, raced = "", true
+			}
+		}
+		if raced && !rp.Loose {
+			raceTwin(r, clean, rp)
+		}
 		r.Finish()
 		return
 	}
